@@ -170,7 +170,7 @@ pub fn archive_clauses(bytes: &[u8], l: &Logical) -> Result<(u64, u64), String> 
 }
 
 pub fn run(ctx: &mut Ctx) {
-    let n = ctx.n(1200, 30_000);
+    let n = ctx.n(1200, 60_000);
     for i in 0..n {
         if !ctx.mine(i) {
             continue;
